@@ -2,7 +2,7 @@
 Each logs an effect event into the path's ghost log so that properties can speak about *what was called with what*."""
 import z3
 from pyvc.sorts import V, VNONE, Val, vref, vint, vbool, fresh, Str, Int, Bool, box
-from pyvc.state import static_ref
+from pyvc.state import static_ref, clsid
 
 
 def register(K):
@@ -123,7 +123,9 @@ def register_streams(K):
 
     def std(name):
         def f(eng, st, *a):
-            return vref(static_ref("stream:" + name), cls="stream")
+            r = static_ref("stream:" + name)
+            st.assume(st.cls_of(z3.IntVal(r)) == clsid("stream"))        # the interpreter's standard streams are stream objects
+            return vref(r, cls="stream")
         return f
     K.external_attr("sys", "stdin")(std("sys.stdin"))
     K.external_attr("sys", "stdout")(std("sys.stdout"))
@@ -132,7 +134,9 @@ def register_streams(K):
     @K.external_attr("stream", "buffer")
     def _buffer(eng, st, v):
         r = z3.simplify(v.t)
-        return vref(static_ref(f"stream:buffer-of-{r}"), cls="stream")
+        b = static_ref(f"stream:buffer-of-{r}")
+        st.assume(st.cls_of(z3.IntVal(b)) == clsid("stream"))
+        return vref(b, cls="stream")
 
     @K.external_attr("sys", "argv")
     def _argv(eng, st):
